@@ -130,11 +130,13 @@ pub trait ParallelIterator: Sized + Send + Sync {
 
     fn sum<S>(self) -> S
     where
-        S: Send + std::iter::Sum<Self::Item>,
+        S: Send + std::iter::Sum<Self::Item> + std::iter::Sum<S>,
     {
-        // pieces are summed left to right, then the partial sums in tree order
-        let parts: Vec<Self::Item> = self.collect();
-        parts.into_iter().sum()
+        // like rayon: pieces are summed left to right, partial sums are added in tree order, so a
+        // non-associative addition (floats) sees the shape of the split tree
+        self.map(|x| std::iter::once(x).sum::<S>())
+            .reduce_with(|a, b| vec![a, b].into_iter().sum::<S>())
+            .unwrap_or_else(|| std::iter::empty::<S>().sum::<S>())
     }
 
     fn collect<C>(self) -> C
@@ -335,7 +337,28 @@ where
     PI: ParallelIterator,
     OP: Fn(PI::Item, PI::Item) -> PI::Item + Sync + Send,
 {
-    let cfg = sim::with(|s| s.cfg.clone());
+    if !sim::in_simulation() {
+        // plain sequential semantics, no simulator involved
+        let mut acc: Option<PI::Item> = None;
+        for b in pi.take_bases() {
+            let v = pi.eval(b);
+            acc = match (acc, v) {
+                (Some(a), Some(v)) => Some(op(a, v)),
+                (None, v) => v,
+                (a, None) => a,
+            };
+        }
+        return acc;
+    }
+    let mut cfg = sim::with(|s| s.cfg.clone());
+    // a parallel iterator used *inside* a replica item (e.g. by the library's own code): its pieces
+    // belong to the enclosing item as far as the access monitor is concerned, and the F-subset
+    // fault applies to the outermost iterator only
+    let parent_item = sim::current_item();
+    let nested = parent_item >= 0;
+    if nested {
+        cfg.deliver = None;
+    }
     let all = pi.take_bases();
     let total = all.len();
     // F-subset: the simulated pool hands the pipeline only the chosen positions
@@ -362,19 +385,23 @@ where
         // one worker, index order, single left fold, no pre-emption
         let mut acc: Option<PI::Item> = None;
         for (pos, b) in bases {
-            sim::set_current_item(pos as i64);
+            sim::set_current_item(if nested { parent_item } else { pos as i64 });
             let v = pi.eval(b);
-            sim::set_current_item(-1);
-            sim::with(|s| s.stats.tasks += 1);
+            sim::set_current_item(if nested { parent_item } else { -1 });
+            if !nested {
+                sim::with(|s| s.stats.tasks += 1);
+            }
             acc = match (acc, v) {
                 (Some(a), Some(v)) => Some(op(a, v)),
                 (None, v) => v,
                 (a, None) => a,
             };
         }
-        sim::with(|s| {
-            s.stats.leaves += 1;
-        });
+        if !nested {
+            sim::with(|s| {
+                s.stats.leaves += 1;
+            });
+        }
         return acc;
     }
 
@@ -392,7 +419,9 @@ where
     let n_leaves = leaves.len();
     let deque = Mutex::new(deque);
     let results: Mutex<Vec<Option<Option<PI::Item>>>> = Mutex::new((0..n_leaves).map(|_| None).collect());
-    let workers = cfg.workers.max(1);
+    // nested pools are kept small: every simulated thread owns a 1 MiB continuation stack, and a
+    // library-level iterator may be entered thousands of times per replica
+    let workers = if nested { cfg.workers.max(1).min(2) } else { cfg.workers.max(1) };
     let pi_ref = &pi;
     let deque_ref = &deque;
     let results_ref = &results;
@@ -422,10 +451,14 @@ where
                     did_any = true;
                     let mut acc: Option<PI::Item> = None;
                     for (pos, b) in items {
-                        sim::set_current_item(pos as i64);
+                        sim::set_current_item(if nested { parent_item } else { pos as i64 });
                         let v = pi_ref.eval(b);
                         sim::set_current_item(-1);
-                        sim::with(|s| s.stats.tasks += 1);
+                        if !nested {
+                            sim::with(|s| s.stats.tasks += 1);
+                        } else {
+                            sim::with(|s| s.stats.nested_tasks += 1);
+                        }
                         acc = match (acc, v) {
                             (Some(a), Some(v)) => Some(op(a, v)),
                             (None, v) => v,
@@ -446,10 +479,14 @@ where
     });
     let mut results = results.into_inner().unwrap();
     let r = *ran.lock().unwrap();
-    sim::with(|s| {
-        s.stats.leaves += n_leaves as u64;
-        s.stats.tree_depth = s.stats.tree_depth.max(depth);
-        s.stats.workers_that_ran_items = s.stats.workers_that_ran_items.max(r);
-    });
+    if !nested {
+        sim::with(|s| {
+            s.stats.leaves += n_leaves as u64;
+            s.stats.tree_depth = s.stats.tree_depth.max(depth);
+            s.stats.workers_that_ran_items = s.stats.workers_that_ran_items.max(r);
+        });
+    }
+    // back in the enclosing item's context
+    sim::set_current_item(parent_item);
     combine(&tree, &mut results, op)
 }
